@@ -8,8 +8,8 @@ Lemma imgs_perm {F} (l l' : list (rd F)) : Permutation l l' -> Permutation (imgs
 Proof.
   induction 1 as [|x l l' _ IH|x y l|l l' l'' _ IH1 _ IH2].
   - constructor.
-  - destruct x as [e|attrs f m]; cbn [imgs]; [exact IH|]. destruct (is_image attrs); [constructor|]; exact IH.
-  - destruct x as [e|a f m], y as [e'|a' f' m']; cbn [imgs]; try reflexivity;
+  - destruct x as [e|attrs f m|attrs e]; cbn [imgs]; [exact IH | | exact IH]. destruct (is_image attrs); [constructor|]; exact IH.
+  - destruct x as [e|a f m|a e], y as [e'|a' f' m'|a' e']; cbn [imgs]; try reflexivity;
       repeat match goal with |- context [is_image ?a] => destruct (is_image a) end; try reflexivity.
     apply perm_swap.
   - etransitivity; eassumption.
